@@ -31,7 +31,9 @@ ADMIT = {
 SPECIAL = ["one/cap/add-1", "one/cap/low/add-1", "one/low", "one/low/add-1", "one/ns-second/sec", "one/ns-second/sec/add-1", "one/ns-second/add-1/cap2",
            "one/cap/ns-second/sec", "hello/cap/cat-~X~/one/low~E", "one/add-%32/add-1", "hello-a~/b/cat", "/one/add-2/add-~X~add-1~E",
            "num-~5/add-~3", "ident/coll-a", "one/mul-2.5", "lst-a-b/push/push-q", "dct/setkey/setkey-z-9", "one/sub/coll-a", "hello/st/x.TXT",
-           "one/let-v-x/add-~X~add-1~E/state_variable-v", "one/add-~X~/vfirst~E/add-1", "lst-a/appendvar/state_variable-lv"]
+           "one/let-v-x/add-~X~add-1~E/state_variable-v", "one/add-~X~/vfirst~E/add-1", "lst-a/appendvar/state_variable-lv",
+           # empty values are values: cached and reused like any other
+           "blank", "blank/ident", "blankb", "blankb/ident", "blank/cat"]
 
 
 def multiset(calls):
@@ -144,7 +146,7 @@ def bounded(tier, seed):
         for q in SPECIAL[:8]:
             check_empty_extras(col, kind, factory, admit, q)
         standins.append(M.standin("%s: reuse of cached results" % kind,
-                                  "%d successful non-volatile queries (22 hand-picked incl. attribute/namespace/spelling cases + %s of all_queries(%s)), "
+                                  "%d successful non-volatile queries (27 hand-picked incl. attribute/namespace/spelling cases + %s of all_queries(%s)), "
                                   "each: cold, repeat, up to 8 extensions of its two longest prefixes" % (len(qs), "a stride" if kind == "MemoryCache" else "a seeded sample", tier),
                                   col.evaluations - n0, False))
     return dict(evaluations=col.evaluations, distinct_nontrivial=len(col.nontrivial),
